@@ -5,6 +5,14 @@ Emit == PrintT(<<"REPLAY", ToJson([op |-> "doc", kind |-> kind, serial |-> seria
           chain_ok |-> IF kind = "notification" THEN Consecutive(Retained(DSerials, limit)) ELSE TRUE,
           retained |-> IF kind = "notification" THEN Retained(DSerials, limit) ELSE <<>>,
           origins_ok |-> IF kind = "notification" THEN OriginsMatch(base, snapAuth, DAuths) ELSE TRUE])>>)
+\* a notification with so many delta entries that the file is larger than the budget of any single element (each element
+\* has its own budget: a library-written file must parse back however many small elements it has)
+EmitBulk == (kind = "notification" /\ elems = <<>> /\ serial = 0 /\ snapAuth = "a" /\ base = "a" /\ limit = NoneL) =>
+               PrintT(<<"REPLAY", ToJson([op |-> "bulk", kind |-> "notification", n |-> 9000])>>)
 \* keep the notification part small: only a few (snapAuth, base, limit) combinations for the other kinds
-Slim == kind # "notification" => (snapAuth = "a" /\ base = "a" /\ limit = NoneL)
+Slim == /\ (kind # "notification" => (snapAuth = "a" /\ base = "a" /\ limit = NoneL))
+        \* the look-alike authorities "ax" / "ap" are only compared against the base "a", without a limit
+        /\ base \notin {"ax", "ap"}
+        /\ ((snapAuth \in {"ax", "ap"} \/ \E i \in 1..Len(elems) : elems[i].t = "delta" /\ elems[i].auth \in {"ax", "ap"})
+              => (base = "a" /\ limit = NoneL /\ serial = 0))
 =============================================================================
